@@ -330,3 +330,39 @@ Qed.
 (* saving to a file changes nothing at all *)
 Theorem save_is_pure : forall h t, fst (step h (Save t)) = h.
 Proof. reflexivity. Qed.
+
+(* --- the executable comparison used by the monitor is sound --- *)
+Lemma buffer_eqb_spec : forall a b, buffer_eqb a b = true <-> a = b.
+Proof.
+  intros [ka ca] [kb cb]. unfold buffer_eqb. cbn [bk bcls]. split.
+  - intros H. apply andb_true_iff in H. destruct H as [K Cc]. apply Nat.eqb_eq in Cc. subst.
+    destruct ka, kb; try discriminate; reflexivity.
+  - intros E. injection E as -> ->. rewrite Nat.eqb_refl. destruct kb; reflexivity.
+Qed.
+
+Lemma value_eqb_spec : forall a b, value_eqb a b = true <-> a = b.
+Proof.
+  induction a as [| [v x] a IH]; intros [| [w y] b]; cbn [value_eqb]; split; intros H; try discriminate; try reflexivity.
+  - apply andb_true_iff in H. destruct H as [H Hr]. apply andb_true_iff in H. destruct H as [Hv Hb].
+    apply Nat.eqb_eq in Hv. apply buffer_eqb_spec in Hb. apply IH in Hr. subst. reflexivity.
+  - injection H as -> -> ->. rewrite Nat.eqb_refl. cbn [andb].
+    rewrite (proj2 (buffer_eqb_spec y y) eq_refl). cbn [andb]. apply IH. reflexivity.
+Qed.
+
+Lemma inplace_on_dec : forall o t, {inplace_on o t} + {~ inplace_on o t}.
+Proof.
+  intros [k s ot | u | u | u | vars] t; cbn [inplace_on]; try (right; tauto); apply Nat.eq_dec.
+Qed.
+
+(* the "may have changed" set the model reports for one operation contains at most the target of a
+   documented in-place operation; everything else is reported (and proved) unchanged *)
+Theorem changed_only_inplace : forall h o t, wf h ->
+  In t (changed h (fst (step h o))) -> inplace_on o t.
+Proof.
+  intros h o t W H. unfold changed in H. apply filter_In in H. destruct H as [Hin Hne].
+  apply in_seq in Hin. destruct (inplace_on_dec o t) as [Y | N]; [exact Y|]. exfalso.
+  pose proof (ops_preserve_operands [o] h t W ltac:(lia)) as P. cbn [run] in P.
+  rewrite P in Hne.
+  - rewrite (proj2 (value_eqb_spec _ _) eq_refl) in Hne. discriminate.
+  - intros o' [<- | []]. exact N.
+Qed.
